@@ -337,7 +337,15 @@ fn run_closecode(f: &[&str]) -> String {
     let cc = CloseCode::from(c);
     let name = format!("{cc:?}");
     let name = name.split('(').next().unwrap().to_string();
-    format!("{}:{}:{}", name, u16::from(cc), if cc.is_allowed() { 1 } else { 0 })
+    // every public conversion: by value, by reference, Display
+    format!(
+        "{}:{}:{}:{}:{}",
+        name,
+        u16::from(cc),
+        if cc.is_allowed() { 1 } else { 0 },
+        u16::from(&cc),
+        cc
+    )
 }
 
 fn run_header_parse(f: &[&str]) -> String {
